@@ -5,6 +5,7 @@ package selfcheck
 
 import (
 	"fmt"
+	"go/ast"
 	"go/token"
 	"go/types"
 	"os"
@@ -17,6 +18,7 @@ import (
 
 	"xpcheck/internal/cfgx"
 	"xpcheck/internal/locks"
+	"xpcheck/internal/norm"
 )
 
 // Result of one control.
@@ -160,6 +162,91 @@ func Run(checkerDir string) ([]Result, error) {
 			}
 		}
 		add("lock-order cycle fires", cyc, "")
+	}
+	// path sensitivity: result temporaries, re-tested values, pure predicates
+	{
+		g := fn("ResultTempGood")
+		ok, _ := cfgx.MustCross(call(g, ").Create", 0), cfgx.ErrEvents(call(g, ").Write", 0)).StrictOK(), nil)
+		add("result-temporary good silent", ok, "the caller's nil test of the temporary is correlated with the path that set it")
+		b := fn("ResultTempBad")
+		ok2, _ := cfgx.MustCross(call(b, ").Create", 0), cfgx.ErrEvents(call(b, ").Write", 0)).StrictOK(), nil)
+		add("result-temporary bad fires", !ok2, "a path that never wrote leaves the temporary nil: the contextual success edge does not cover it")
+		r := fn("RetestedGood")
+		var never []cfgx.Edge
+		for _, p := range r.Params {
+			if p.Name() == "never" {
+				t, _ := cfgx.DirectCondEdges(p)
+				never = append(never, t...)
+			}
+		}
+		var nilRC []cfgx.Edge
+		for _, bb := range r.Blocks {
+			for _, in := range bb.Instrs {
+				if bo, isB := in.(*ssa.BinOp); isB && bo.Op == token.EQL && cfgx.IsNilConst(bo.Y) {
+					t, _ := cfgx.DirectCondEdges(bo)
+					nilRC = append(nilRC, t...)
+				}
+			}
+		}
+		reach, _ := cfgx.ReachableFromEdges(nilRC[:1], call(r, ").Create", 0), nil, nil)
+		add("re-tested value silent", !reach && len(never) > 0 && len(nilRC) >= 2, "after `rc == nil && never` returned, `never` is false on the rc == nil paths")
+		p := fn("PredicateGood")
+		first := call(p, ").Write", 0)
+		var benignFirst []cfgx.Edge
+		for _, x := range cfgx.Calls(p, nil) {
+			if strings.HasSuffix(cfgx.CalleeName(x), "isBenign") {
+				t, _ := cfgx.CallCondEdges(x)
+				benignFirst = append(benignFirst, t...)
+			}
+		}
+		// from the edge "first error is NOT benign" the nil return must be unreachable
+		var notBenign []cfgx.Edge
+		for _, x := range cfgx.Calls(p, nil) {
+			if strings.HasSuffix(cfgx.CalleeName(x), "isBenign") && x.Block() == first.Block() {
+				_, f := cfgx.CallCondEdges(x)
+				notBenign = append(notBenign, f...)
+			}
+		}
+		bad := false
+		for _, er := range cfgx.ErrorReturnsFrom(notBenign, nil) {
+			if cfgx.IsNilConst(er.Val) {
+				bad = true
+			}
+		}
+		add("pure predicate consistency silent", !bad && len(notBenign) == 1 && len(benignFirst) >= 2, "isBenign(err) answers the same for the same error value along a path")
+	}
+	// normaliser: helpers unknown to the rules are inlined; verdicts carry over
+	{
+		known := map[string]bool{}
+		for _, f := range pkgs[0].Syntax {
+			for _, d := range f.Decls {
+				if fd, ok := d.(*ast.FuncDecl); ok && !strings.HasPrefix(fd.Name.Name, "helper") {
+					known["testdata/positive "+norm.FuncKey(fd)] = true
+				}
+			}
+		}
+		res := norm.Plan(pkgs, known, "xpcheck")
+		okPlan := len(res.Overlay) == 1 && len(res.Inlined) == 2
+		detail := fmt.Sprintf("%d call sites inlined, %d left alone", len(res.Inlined), len(res.Skipped))
+		if okPlan {
+			cfg2 := *cfg
+			cfg2.Fset = token.NewFileSet()
+			cfg2.Overlay = res.Overlay
+			pk2, err := packages.Load(&cfg2, "./testdata/positive")
+			if err != nil || len(pk2) != 1 || len(pk2[0].Errors) > 0 {
+				okPlan = false
+				detail = "the normal form does not type-check"
+			} else {
+				prog2, sp2 := ssautil.AllPackages(pk2, ssa.InstantiateGenerics)
+				prog2.Build()
+				g, b := sp2[0].Func("ExtractedGood"), sp2[0].Func("ExtractedBad")
+				okG, _ := cfgx.MustCross(call(g, ").Create", 0), cfgx.ErrEvents(call(g, ").Write", 0)).StrictOK(), nil)
+				okB, _ := cfgx.MustCross(call(b, ").Create", 0), cfgx.ErrEvents(call(b, ").Write", 0)).StrictOK(), nil)
+				add("normaliser: extracted helper, gate held", call(g, ").Write", 0) != nil && okG, "after inlining, Create in the caller needs ok(Write) of the helper's body")
+				add("normaliser: extracted helper, gate missing fires", call(b, ").Write", 0) != nil && !okB, "the helper's early `return nil` is a path to Create without ok(Write)")
+			}
+		}
+		add("normaliser plans and type-checks", okPlan, detail)
 	}
 	// self-carry
 	{
